@@ -8,6 +8,23 @@ BASELINE_CMD = ("cd /repo && /venv/bin/python -m pytest -ra -q -p no:cacheprovid
 
 # property -> dict(category, text, note, technique, design_ref)   (only claimed properties)
 CLAIMS: dict = {
+    'C01': dict(
+        category='proof',
+        text='Three layers of per-function contracts proved for all documents/databases/arguments: (1) row images - the '
+             'real _insert_* functions are executed symbolically inside the real _add_lexical_resource and the rows they '
+             'bind into the real INSERT texts are proved equal (column by column, one row per element, order, look-up '
+             'keys) to a sidecar specification; (2) every query function of _queries.py returns exactly the specified '
+             'family (sound, complete, duplicates, order, grouping); (3) every _core accessor passes the right '
+             'rowid/table/scope and builds its result from the right columns. Converters/declared types are decided on '
+             'schema.sql and _db.py.',
+        note='Assumed: A-SQLITE, A-DECL, A-JSON; order of SELECTs without ORDER BY is left to SQLite (A-ORDER). '
+             '_batch and _collect_frames enter the proof by contract; the contracts are checked by bounded stand-ins '
+             '(labelled bounded, not counted). The composition of the three layers into the per-observable statements '
+             'is hand-argued (DESIGN 5 C01.4). XML reading itself is C02/C20. Related known findings K1, K13 are '
+             'reported under C04/C05.',
+        technique='contract-based deductive verification: AST->VC symbolic execution + SQL->FOL, family equality '
+                  'obligations discharged by z3',
+        engines=['pyvc', 'sqlvc', 'bounded']),
     'C04': dict(
         category='proof',
         text='Per query function of wn/_queries.py (SQL text and bind map extracted by symbolic execution of the '
